@@ -26,13 +26,16 @@ def oracle(h):
     nodes = json.dumps(h.init.get("nodes"), sort_keys=True)
     # what the clients were TOLD: a token is created by an answered CreateSession, activated by an ActivateSession that
     # was answered Good, and gone after an answered CloseSession (the server's own flags are not trusted here)
-    known, active = set(), set()
+    known, active, closed = set(), set(), set()
     for e in h.evs:
         ev, o = e["ev"], e["out"]
         if ev.get("nomodel"):
             continue
         hooks_active = {sc.tokkey(s["Token"]) for s in (tables.get("sessions") or []) if s["Activated"]}
-        if hooks_active - active:
+        if (hooks_active - active) & closed:
+            fails.append(("closed-session-still-in-table", "the session table still holds token(s) %s as activated although the client was "
+                          "answered Good to CloseSession" % sorted((hooks_active - active) & closed), e))
+        elif hooks_active - active:
             fails.append(("activated-without-successful-activation", "the session table marks token(s) %s activated although no ActivateSession "
                           "with that token was answered Good" % sorted(hooks_active - active), e))
         after_nodes = json.dumps(e.get("nodes"), sort_keys=True)
@@ -50,11 +53,13 @@ def oracle(h):
         if ev["kind"] == "createsession" and o["k"] == "createsession":
             known.add(o["tok"])
             active.discard(o["tok"])
+            closed.discard(o["tok"])
         if ev["kind"] == "activate" and o["k"] == "activate":
             active.add(ev["tok"])
         if ev["kind"] == "closesession" and o["k"] == "close":
             known.discard(ev["tok"])
             active.discard(ev["tok"])
+            closed.add(ev["tok"])
         tables = e["tables"]
         if e.get("nodes") is not None:
             nodes = after_nodes
